@@ -9,6 +9,7 @@ import (
 	"fmt"
 	"net/netip"
 	"testing"
+	"time"
 
 	"github.com/scionproto/scion/pkg/slayers"
 	"github.com/scionproto/scion/pkg/spao"
@@ -108,6 +109,15 @@ func run(r *mc.Run, srvAuth bool, only *in) {
 				expectSPI = true
 			case "server-spi":
 				pk.AuthKey, pk.AuthSPI = key, scion.PacketAuthSPIServer
+			case "valid-over-trailing-bytes":
+				// a captured, genuinely authenticated request, re-sent with another UDP
+				// header and another NTP request in front of it: the authenticator verifies
+				// over the trailing (captured) bytes, not over what the listener would serve
+				pk.AuthKey, pk.AuthSPI = key, scion.PacketAuthSPIClient
+				other := kit.ClientHeader(w.Clock.Peek().Add(-time.Hour))
+				other[2] = 9
+				pk.Front = kit.UDPFront(40123, uint16(i.DstPort), other)
+				expectSPI = true
 			}
 			b := pk.Bytes()
 			if i.AuthOpt == "valid" && i.Mut > 0 {
@@ -149,7 +159,7 @@ func run(r *mc.Run, srvAuth bool, only *in) {
 							// recompute the MAC over what the server received
 							mac := make([]byte, 16)
 							k2 := s.Daemon.HostHostKey(pr.SCION.DstIA, pr.SCION.SrcIA, netipOf(pr.SCION.RawDstAddr), netipOf(pr.SCION.RawSrcAddr))
-							_, e2 := spao.ComputeAuthCMAC(spao.MACInput{Key: k2, Header: slayers.PacketAuthOption{EndToEndOption: ao}, ScionLayer: &pr.SCION, PldType: slayers.L4UDP, Pld: b[len(b)-int(pr.UDP.Length):]}, make([]byte, spao.MACBufferSize), mac)
+							_, e2 := spao.ComputeAuthCMAC(spao.MACInput{Key: k2, Header: slayers.PacketAuthOption{EndToEndOption: ao}, ScionLayer: &pr.SCION, PldType: slayers.L4UDP, Pld: append(append([]byte{}, pr.UDP.Contents...), pr.UDP.Payload...)}, make([]byte, spao.MACBufferSize), mac)
 							if e2 == nil && !bytes.Equal(mac, scion.PacketAuthOptMAC(ao)) {
 								r.Fail(scen, "unverified-authenticator-served", fmt.Sprintf("bit %d flipped: the authenticator does not verify over the received packet but the request was served", i.Mut-1), i)
 							}
@@ -240,7 +250,7 @@ func run(r *mc.Run, srvAuth bool, only *in) {
 					hasAuth = true
 					spi, algo := scion.PacketAuthOptMetadata(ao)
 					mac := make([]byte, 16)
-					_, e2 := spao.ComputeAuthCMAC(spao.MACInput{Key: key, Header: slayers.PacketAuthOption{EndToEndOption: ao}, ScionLayer: &pr.SCION, PldType: slayers.L4UDP, Pld: o.Data[len(o.Data)-int(pr.UDP.Length):]}, make([]byte, spao.MACBufferSize), mac)
+					_, e2 := spao.ComputeAuthCMAC(spao.MACInput{Key: key, Header: slayers.PacketAuthOption{EndToEndOption: ao}, ScionLayer: &pr.SCION, PldType: slayers.L4UDP, Pld: append(append([]byte{}, pr.UDP.Contents...), pr.UDP.Payload...)}, make([]byte, spao.MACBufferSize), mac)
 					if spi != scion.PacketAuthSPIServer || algo != scion.PacketAuthAlgorithm || e2 != nil || !bytes.Equal(mac, scion.PacketAuthOptMAC(ao)) {
 						r.Fail(scen, "reply-authenticator-does-not-verify", fmt.Sprintf("%+v: spi=%#x algo=%d", i, spi, algo), i)
 					}
@@ -263,9 +273,12 @@ func run(r *mc.Run, srvAuth bool, only *in) {
 							continue
 						}
 						for _, sock := range []string{"service", "endhost"} {
-							for _, ao := range []string{"absent", "valid", "wrong-key", "server-spi"} {
+							for _, ao := range []string{"absent", "valid", "wrong-key", "server-spi", "valid-over-trailing-bytes"} {
 								if ao != "absent" && l4 != "udp" {
 									continue
+								}
+								if ao == "valid-over-trailing-bytes" && port != kit.SrvPort {
+									continue // only meaningful for requests the listener serves itself
 								}
 								i := in{Auth: srvAuth, V6: v6, Path: p.String(), L4: l4, DstPort: port, Sock: sock, AuthOpt: ao}
 								try(i)
@@ -313,7 +326,7 @@ func run(r *mc.Run, srvAuth bool, only *in) {
 				}
 				key := sw.Daemon.HostHostKey(kit.SrvIA, kit.CliIA, dst.String(), ch.String())
 				mac := make([]byte, 16)
-				_, e2 := spao.ComputeAuthCMAC(spao.MACInput{Key: key, Header: slayers.PacketAuthOption{EndToEndOption: ao}, ScionLayer: &pr.SCION, PldType: slayers.L4UDP, Pld: o.Data[len(o.Data)-int(pr.UDP.Length):]}, make([]byte, spao.MACBufferSize), mac)
+				_, e2 := spao.ComputeAuthCMAC(spao.MACInput{Key: key, Header: slayers.PacketAuthOption{EndToEndOption: ao}, ScionLayer: &pr.SCION, PldType: slayers.L4UDP, Pld: append(append([]byte{}, pr.UDP.Contents...), pr.UDP.Payload...)}, make([]byte, spao.MACBufferSize), mac)
 				return e2 == nil && bytes.Equal(mac, scion.PacketAuthOptMAC(ao))
 			}
 			for _, a := range hosts {
@@ -390,6 +403,9 @@ func TestCheck(t *testing.T) {
 				run(r, auth, nil)
 			}
 		}
+		if !r.Replaying() && r.Mine() {
+			clientSide(r)
+		}
 		if r.Replaying() {
 			for _, v := range r.Rep.Violations {
 				fmt.Printf("REPLAY-VERDICT: FAIL signature=%q\n%s\n", v.Signature, v.Message)
@@ -400,6 +416,6 @@ func TestCheck(t *testing.T) {
 			}
 			return
 		}
-		r.Extra["rule"] = "runSCIONServer on the service port and the end-host port, DRKey fetcher present/absent: product of {IPv4, IPv6 hosts} x {empty, one-hop, SCION paths with 1-3 segments of 1-3 hops at the first/last/cross-over (thorough: every) position} x {UDP/NTP, SCMP echo, traceroute, error, unknown, other L4} x L4 destination port {service, 30041, other} x receiving socket x authenticator {absent, valid, wrong key, server SPI} x hop-by-hop extension {absent, present}; plus every single-bit flip of a verified request (2 paths x 2 families) and all ordered pairs of requests addressed to different local host addresses through one listener (one DRKey cache)"
+		r.Extra["rule"] = "runSCIONServer on the service port and the end-host port, DRKey fetcher present/absent: product of {IPv4, IPv6 hosts} x {empty, one-hop, SCION paths with 1-3 segments of 1-3 hops at the first/last/cross-over (thorough: every) position} x {UDP/NTP, SCMP echo, traceroute, error, unknown, other L4} x L4 destination port {service, 30041, other} x receiving socket x authenticator {absent, valid, wrong key, server SPI, valid over trailing bytes only (a captured request re-sent behind another UDP header and NTP request)} x hop-by-hop extension {absent, present}; plus every single-bit flip of a verified request (2 paths x 2 families) and all ordered pairs of requests addressed to different local host addresses through one listener (one DRKey cache); response half: an authenticating SCIONClient against the authenticating listener, its genuine response delivered as is, with every single bit flipped, and behind another UDP header and NTP response"
 	})
 }
